@@ -282,20 +282,35 @@ func c18Run(c *core.Ctx) {
 		base := strings.Repeat("k", l-1)
 		strs = append(strs, base+"a", base+"b", base+"\xff")
 	}
+	// one string of every length up to 1100 bytes (length arithmetic of the encoded header)
+	for l := 5; l <= 1100; l++ {
+		strs = append(strs, strings.Repeat("k", l))
+	}
 	sort.Strings(strs)
-	res.Bound["string"] = fmt.Sprintf("all %d strings over {01,'a','b',7f,80,ff} up to length %d plus length-boundary strings up to 700 bytes, all ordered pairs", len(strs), maxLen)
+	res.Bound["string"] = fmt.Sprintf("all %d strings: everything over {01,'a','b',7f,80,ff} up to length %d, length-boundary strings up to 700 bytes, one string of every length up to 1100; all ordered pairs", len(strs), maxLen)
 	type encd struct{ lo, hi, padded string }
 	encs := make([]encd, len(strs))
 	for i, s := range strs {
 		v := types.NewVarchar(s)
-		encs[i].lo, encs[i].hi = encV(v, &ridMin), encV(v, &ridMax)
+		if f := guard(func() { encs[i].lo, encs[i].hi = encV(v, &ridMin), encV(v, &ridMax) }); f != nil {
+			if c.Mine(i) {
+				fail(&c18Fail{"string-encode-panic", fmt.Sprintf("encoding a %d-byte string with a row id panics: %s", len(s), f.String())}, s)
+			}
+			continue
+		}
 		if len(encs[i].lo) <= 50-14 {
 			encs[i].padded = string(samehada_util.FillZeroValues([]byte(encs[i].lo), 50))
 		}
 		if c.Mine(i) {
-			back := samehada_util.ExtractOrgKeyFromDicOrderComparableEncodedVarchar(ptrV(types.NewVarchar(encs[i].lo)), types.Varchar)
+			var back *types.Value
+			if f := guard(func() {
+				back = samehada_util.ExtractOrgKeyFromDicOrderComparableEncodedVarchar(ptrV(types.NewVarchar(encs[i].lo)), types.Varchar)
+			}); f != nil {
+				fail(&c18Fail{"string-decode-panic", fmt.Sprintf("decoding the encoded %d-byte string panics: %s", len(s), f.String())}, s)
+				continue
+			}
 			if back.ToVarchar() != s {
-				fail(&c18Fail{"string-roundtrip", fmt.Sprintf("decode(encode(%q)) = %q", s, back.ToVarchar())}, s)
+				fail(&c18Fail{"string-roundtrip", fmt.Sprintf("decode(encode(%s)) = %s", shortKey(s), shortKey(back.ToVarchar()))}, s)
 			}
 			if encs[i].padded != "" {
 				if un := samehada_util.EliminateZeroValues([]byte(encs[i].padded)); !bytes.Equal(un, []byte(encs[i].lo)) {
@@ -319,7 +334,7 @@ func c18Run(c *core.Ctx) {
 			// strs is sorted and duplicate-free: strs[i] < strs[j]
 			nS++
 			if !(encs[i].hi < encs[j].lo) {
-				fail(&c18Fail{"string-order", fmt.Sprintf("%q < %q but an entry of the first (largest rid) does not sort before an entry of the second (smallest rid)", strs[i], strs[j])}, []string{strs[i], strs[j]})
+				fail(&c18Fail{"string-order", fmt.Sprintf("%v < %v but an entry of the first (largest rid) does not sort before an entry of the second (smallest rid)", shortKey(strs[i]), shortKey(strs[j]))}, []string{strs[i], strs[j]})
 			}
 			if encs[i].padded != "" && encs[j].padded != "" && !(encs[i].padded < encs[j].padded) {
 				fail(&c18Fail{"string-order-padded", fmt.Sprintf("%q < %q but the zero-padded B-tree keys sort the other way", strs[i], strs[j])}, []string{strs[i], strs[j]})
@@ -397,7 +412,49 @@ func init() {
 				json.Unmarshal(rp.Input, &r)
 				f = c18Rid(r, []types.Value{types.NewInteger(0), types.NewFloat(0), types.NewVarchar("a")})
 			default:
-				return "string clauses are re-checked by running the check (pairs are cheap)", false
+				// string clauses: the input is one string or an ordered pair of strings
+				var one string
+				var pair []string
+				if json.Unmarshal(rp.Input, &one) != nil {
+					json.Unmarshal(rp.Input, &pair)
+				} else {
+					pair = []string{one}
+				}
+				var out []string
+				bad := false
+				encs := make([][2]string, len(pair))
+				for i, s := range pair {
+					if fl := guard(func() {
+						v := types.NewVarchar(s)
+						encs[i] = [2]string{encV(v, &ridMin), encV(v, &ridMax)}
+						back := samehada_util.ExtractOrgKeyFromDicOrderComparableEncodedVarchar(ptrV(types.NewVarchar(encs[i][0])), types.Varchar)
+						if back.ToVarchar() != s {
+							bad = true
+							out = append(out, fmt.Sprintf("decode(encode(%v)) = %v", shortKey(s), shortKey(back.ToVarchar())))
+						}
+						if !(encs[i][0] <= encs[i][1]) {
+							bad = true
+							out = append(out, fmt.Sprintf("key %v: smallest-rid encoding sorts after largest-rid encoding", shortKey(s)))
+						}
+					}); fl != nil {
+						return fmt.Sprintf("encoding/decoding the %d-byte string panics: %s", len(s), fl.String()), true
+					}
+				}
+				if len(pair) == 2 && !(encs[0][1] < encs[1][0]) {
+					bad = true
+					out = append(out, fmt.Sprintf("%v < %v but the encoded entries sort the other way", shortKey(pair[0]), shortKey(pair[1])))
+				}
+				if len(pair) == 2 && len(encs[0][0]) <= 36 && len(encs[1][0]) <= 36 {
+					a, b := string(samehada_util.FillZeroValues([]byte(encs[0][0]), 50)), string(samehada_util.FillZeroValues([]byte(encs[1][0]), 50))
+					if !(a < b) {
+						bad = true
+						out = append(out, "the zero-padded B-tree keys sort the other way")
+					}
+				}
+				if !bad {
+					return "string input ok: round trip, window and order hold", false
+				}
+				return strings.Join(out, "; "), true
 			}
 			if f != nil {
 				return f.clause + ": " + f.detail, true
